@@ -1,0 +1,17 @@
+//go:build verif
+// +build verif
+
+package btc
+
+import (
+	"math/big"
+
+	"github.com/btcsuite/btcd/wire"
+	"github.com/polynetwork/poly/native"
+)
+
+// VerifPutGenesisBlockHeader installs a trust root as SyncGenesisHeader does after its operator-witness check
+// (total work 0); verification harness only (build tag verif).
+func VerifPutGenesisBlockHeader(service *native.NativeService, chainID uint64, header wire.BlockHeader, height uint32) {
+	putGenesisBlockHeader(service, chainID, StoredHeader{Header: header, Height: height, totalWork: big.NewInt(0)})
+}
